@@ -16,5 +16,10 @@ CONSTANTS
   StaleDump = FALSE
   LicMemoBySynopsis = FALSE
   ParseMemoAliased = FALSE
+  CommaSeparates = FALSE
+  RejectDrops = FALSE
+  RejAt = {}
+  RejThen = 0
+  RejEditAt = {}
 SPECIFICATION TSpec
 CHECK_DEADLOCK FALSE
